@@ -10,7 +10,7 @@ RULE = ('cases = generated G-SEL spec (derivation DAGs/cycles, shared options, s
         'instance + set equality with R-SEL + same decision set => same state; non-trivial = >= 2 selection choices '
         'offered at the same time somewhere in the walk, or a shared-option / cycle label, and >= 2 reference '
         'architectures; distinct by sha1(spec)')
-BUDGET = {'quick': 300, 'thorough': 6000}
+BUDGET = {'quick': 600, 'thorough': 10000}
 MAX_STATES = {'quick': 1200, 'thorough': 20000}
 
 
